@@ -63,11 +63,89 @@ fn all_items(items: &[Item]) -> Vec<&Item> {
     out
 }
 
+fn file_defs_of(f: &File) -> FileDefs {
+    let mut d = FileDefs::default();
+    for it in all_items(&f.items) {
+        match it {
+            Item::Fn(x) => {
+                d.fns.insert(x.sig.ident.to_string());
+            }
+            Item::Const(x) => {
+                d.consts.insert(x.ident.to_string());
+            }
+            Item::Static(x) => {
+                d.consts.insert(x.ident.to_string());
+            }
+            Item::Struct(x) => {
+                d.types.insert(x.ident.to_string());
+            }
+            Item::Enum(x) => {
+                d.types.insert(x.ident.to_string());
+            }
+            Item::Type(x) => {
+                d.types.insert(x.ident.to_string());
+            }
+            Item::Impl(im) if im.trait_.is_some() => {
+                if let Some(t) = type_last_ident(&im.self_ty) {
+                    for ii in im.items.iter() {
+                        if let ImplItem::Type(a) = ii {
+                            let it = type_last_ident(&a.ty).filter(|_| matches!(strip_group(&a.ty), Type::Path(p) if p.qself.is_none() && p.path.segments.len() == 1 && matches!(p.path.segments[0].arguments, PathArguments::None)));
+                            let key = (t.clone(), a.ident.to_string());
+                            let v = match (d.assoc_types.get(&key), it) {
+                                (None, Some(i)) => Some(i),
+                                (Some(Some(old)), Some(i)) if *old == i => Some(i),
+                                _ => None,
+                            };
+                            d.assoc_types.insert(key, v);
+                        }
+                    }
+                }
+            }
+            Item::Impl(im) if im.trait_.is_none() => {
+                if let Some(t) = type_last_ident(&im.self_ty) {
+                    for ii in im.items.iter() {
+                        if let ImplItem::Fn(f) = ii {
+                            d.inherent.insert((t.clone(), f.sig.ident.to_string()));
+                        }
+                    }
+                }
+            }
+            _ => {}
+        }
+    }
+    d
+}
+
+/// the traits named in `#[derive(..)]` attributes
+fn derive_list(attrs: &[Attribute]) -> BTreeSet<String> {
+    let mut out = BTreeSet::new();
+    for a in attrs {
+        if a.path().is_ident("derive") {
+            if let Ok(l) = a.meta.require_list() {
+                let mut ids = BTreeSet::new();
+                idents_of(l.tokens.clone(), &mut ids);
+                out.extend(ids);
+            }
+        }
+    }
+    out
+}
+
 fn type_last_ident(t: &Type) -> Option<String> {
     match t {
         Type::Path(p) => p.path.segments.last().map(|s| s.ident.to_string()),
         Type::Reference(r) => type_last_ident(&r.elem),
+        Type::Group(g) => type_last_ident(&g.elem),
+        Type::Paren(g) => type_last_ident(&g.elem),
         _ => None,
+    }
+}
+
+fn strip_group(t: &Type) -> &Type {
+    match t {
+        Type::Group(g) => strip_group(&g.elem),
+        Type::Paren(g) => strip_group(&g.elem),
+        t => t,
     }
 }
 
@@ -243,6 +321,8 @@ struct FnJob {
     name: String,
     info_idx: usize,
     module: usize,
+    /// `inst=P:Type,..`: type parameters of the function instantiated with configured types (a monomorphic instance)
+    inst: BTreeMap<String, Ty>,
 }
 
 enum Decl {
@@ -258,7 +338,153 @@ struct Module {
     errors: Vec<String>,
 }
 
+/// one `macro .. $p=tokens` binding, checked against the actual invocations at the end of the configuration
+struct MacroBinding {
+    file: String,
+    mac: String,
+    arm: usize,
+    param: String,
+    bound: String,
+    module: usize,
+    inst: String,
+}
+
+/// split a token stream at top-level commas
+fn split_commas(ts: proc_macro2::TokenStream) -> Vec<Vec<proc_macro2::TokenTree>> {
+    let mut out = vec![vec![]];
+    for t in ts {
+        match &t {
+            proc_macro2::TokenTree::Punct(p) if p.as_char() == ',' => out.push(vec![]),
+            _ => out.last_mut().unwrap().push(t),
+        }
+    }
+    if out.last().map(|l| l.is_empty()).unwrap_or(false) {
+        out.pop();
+    }
+    out
+}
+
+/// where `$name` sits in a macro pattern: indices of comma-separated fragments, descending into the group of a fragment
+/// the `$name`s of one comma-separated fragment of a macro pattern, in order (top level of the fragment only)
+fn frag_params(frag: &[proc_macro2::TokenTree]) -> Vec<String> {
+    let mut out = vec![];
+    for (j, t) in frag.iter().enumerate() {
+        if let proc_macro2::TokenTree::Punct(p) = t {
+            if p.as_char() == '$' {
+                if let Some(proc_macro2::TokenTree::Ident(id)) = frag.get(j + 1) {
+                    out.push(id.to_string());
+                }
+            }
+        }
+    }
+    out
+}
+
+/// path of comma-fragment indices to `$name`; when the fragment holds several parameters separated by literal `:`
+/// (`$a:ident : $b:ident`), a last element 1000 + k says "the k-th `:`-separated part"
+fn locate_param(pat: proc_macro2::TokenStream, name: &str) -> Option<Vec<usize>> {
+    for (i, frag) in split_commas(pat).into_iter().enumerate() {
+        let ps = frag_params(&frag);
+        if let Some(k) = ps.iter().position(|p| p == name) {
+            return Some(if ps.len() > 1 { vec![i, 1000 + k] } else { vec![i] });
+        }
+        for t in frag.iter() {
+            if let proc_macro2::TokenTree::Group(g) = t {
+                if let Some(mut rest) = locate_param(g.stream(), name) {
+                    let mut p = vec![i];
+                    p.append(&mut rest);
+                    return Some(p);
+                }
+            }
+        }
+    }
+    None
+}
+
+/// split at single `:` tokens (not `::`)
+fn split_single_colons(frag: &[proc_macro2::TokenTree]) -> Vec<Vec<proc_macro2::TokenTree>> {
+    let mut out = vec![vec![]];
+    let mut i = 0;
+    while i < frag.len() {
+        if let proc_macro2::TokenTree::Punct(p) = &frag[i] {
+            if p.as_char() == ':' {
+                if p.spacing() == proc_macro2::Spacing::Joint && matches!(frag.get(i + 1), Some(proc_macro2::TokenTree::Punct(q)) if q.as_char() == ':') {
+                    out.last_mut().unwrap().push(frag[i].clone());
+                    out.last_mut().unwrap().push(frag[i + 1].clone());
+                    i += 2;
+                    continue;
+                }
+                out.push(vec![]);
+                i += 1;
+                continue;
+            }
+        }
+        out.last_mut().unwrap().push(frag[i].clone());
+        i += 1;
+    }
+    out
+}
+
+fn extract_arg(args: proc_macro2::TokenStream, path: &[usize]) -> Option<Vec<proc_macro2::TokenTree>> {
+    let frags = split_commas(args);
+    let frag = frags.get(path[0])?.clone();
+    if path.len() == 1 {
+        return Some(frag);
+    }
+    if path[1] >= 1000 {
+        let parts = split_single_colons(&frag);
+        return parts.get(path[1] - 1000).cloned();
+    }
+    for t in frag.iter() {
+        if let proc_macro2::TokenTree::Group(g) = t {
+            return extract_arg(g.stream(), &path[1..]);
+        }
+    }
+    None
+}
+
+/// arms of a macro_rules! definition: (pattern, body)
+fn macro_arms(m: &ItemMacro) -> Vec<(proc_macro2::TokenStream, proc_macro2::TokenStream)> {
+    let toks: Vec<proc_macro2::TokenTree> = m.mac.tokens.clone().into_iter().collect();
+    let mut out = vec![];
+    let mut i = 0;
+    while i + 3 < toks.len() {
+        if let (proc_macro2::TokenTree::Group(p), proc_macro2::TokenTree::Punct(a), proc_macro2::TokenTree::Punct(b), proc_macro2::TokenTree::Group(body)) = (&toks[i], &toks[i + 1], &toks[i + 2], &toks[i + 3]) {
+            if a.as_char() == '=' && b.as_char() == '>' {
+                out.push((p.stream(), body.stream()));
+                i += 4;
+                if i < toks.len() && matches!(&toks[i], proc_macro2::TokenTree::Punct(p) if p.as_char() == ';') {
+                    i += 1;
+                }
+                continue;
+            }
+        }
+        break;
+    }
+    out
+}
+
+/// invocations `name!( .. )` inside a token stream (recursively)
+fn find_invocations(ts: proc_macro2::TokenStream, name: &str, out: &mut Vec<proc_macro2::TokenStream>) {
+    let toks: Vec<proc_macro2::TokenTree> = ts.into_iter().collect();
+    for i in 0..toks.len() {
+        if let proc_macro2::TokenTree::Ident(id) = &toks[i] {
+            if id == name {
+                if let (Some(proc_macro2::TokenTree::Punct(p)), Some(proc_macro2::TokenTree::Group(g))) = (toks.get(i + 1), toks.get(i + 2)) {
+                    if p.as_char() == '!' {
+                        out.push(g.stream());
+                    }
+                }
+            }
+        }
+        if let proc_macro2::TokenTree::Group(g) = &toks[i] {
+            find_invocations(g.stream(), name, out);
+        }
+    }
+}
+
 struct Driver {
+    macro_bindings: Vec<MacroBinding>,
     /// file of the declaration being processed (tie-break for type names)
     cur_file: String,
     repo: String,
@@ -277,6 +503,7 @@ impl Driver {
         let p = Path::new(&self.repo).join(file);
         let text = std::fs::read_to_string(&p).map_err(|e| format!("{}: {}", p.display(), e))?;
         let parsed = syn::parse_file(&text).map_err(|e| format!("{}: parse error: {}", file, e))?;
+        self.tables.file_defs.insert(file.to_string(), file_defs_of(&parsed));
         self.sources.insert(file.to_string(), Source { text, file: parsed });
         Ok(())
     }
@@ -322,12 +549,164 @@ impl Driver {
             let (k, v) = b.split_once('=').ok_or_else(|| format!("macro binding `{}` is not $name=tokens", b))?;
             let ts: proc_macro2::TokenStream = v.replace('~', " ").parse().map_err(|e| format!("binding `{}`: {}", b, e))?;
             bind.insert(k.trim_start_matches('$').to_string(), ts);
+            let module = self.modules.len().saturating_sub(1);
+            self.macro_bindings.push(MacroBinding { file: file.to_string(), mac: name.to_string(), arm, param: k.trim_start_matches('$').to_string(), bound: v.replace('~', "").chars().filter(|c| !c.is_whitespace()).collect(), module, inst: vfile.to_string() });
         }
         let expanded = expand_template(body, &bind, &prefix);
         let parsed: File = syn::parse2(expanded).map_err(|e| format!("macro_rules! {} arm {}: the instantiated body does not parse as items: {}", name, arm, e))?;
         let text = src.text.clone();
+        self.tables.file_defs.insert(vfile.to_string(), file_defs_of(&parsed));
         self.sources.insert(vfile.to_string(), Source { text, file: parsed });
         Ok(())
+    }
+
+    /// the concrete argument texts that reach parameter `$param` of arm `arm` of macro `mac` in `file`
+    fn macro_actuals(&self, file: &str, mac: &str, arm: usize, param: &str, depth: usize, out: &mut BTreeSet<String>) -> R<()> {
+        if depth > 6 {
+            return Err(format!("macro_rules! {}: invocation chain too deep to check", mac));
+        }
+        let src = &self.sources[file];
+        let mut defs: Vec<&ItemMacro> = vec![];
+        for it in all_items(&src.file.items) {
+            if let Item::Macro(m) = it {
+                if m.mac.path.is_ident("macro_rules") {
+                    defs.push(m);
+                }
+            }
+        }
+        let def = defs.iter().find(|m| m.ident.as_ref().map(|i| i == mac).unwrap_or(false)).ok_or_else(|| format!("macro_rules! {} not found", mac))?;
+        let arms = macro_arms(def);
+        let (pat, _) = arms.get(arm).ok_or_else(|| format!("macro_rules! {}: no arm {}", mac, arm))?;
+        let path = locate_param(pat.clone(), param).ok_or_else(|| format!("macro_rules! {} arm {}: no parameter ${}", mac, arm, param))?;
+        let arity = split_commas(pat.clone()).len();
+        // invocation sites: top-level items, and bodies of macro_rules! arms (where the argument may be a metavariable)
+        let mut sites: Vec<(proc_macro2::TokenStream, Option<(String, usize)>)> = vec![];
+        for it in all_items(&src.file.items) {
+            if let Item::Macro(m) = it {
+                if m.mac.path.is_ident(mac) {
+                    sites.push((m.mac.tokens.clone(), None));
+                }
+            }
+        }
+        for m in defs.iter() {
+            let mname = m.ident.as_ref().map(|i| i.to_string()).unwrap_or_default();
+            for (ai, (_, body)) in macro_arms(m).into_iter().enumerate() {
+                let mut inv = vec![];
+                find_invocations(body, mac, &mut inv);
+                for a in inv {
+                    sites.push((a, Some((mname.clone(), ai))));
+                }
+            }
+        }
+        for (args, ctx) in sites {
+            if split_commas(args.clone()).len() != arity {
+                continue; // another arm
+            }
+            let a = match extract_arg(args, &path) {
+                Some(a) => a,
+                None => return Err(format!("macro_rules! {}: cannot locate the argument for ${} in an invocation", mac, param)),
+            };
+            // `$q` inside another macro: follow it
+            if a.len() == 2 {
+                if let (proc_macro2::TokenTree::Punct(p), proc_macro2::TokenTree::Ident(q)) = (&a[0], &a[1]) {
+                    if p.as_char() == '$' {
+                        match &ctx {
+                            Some((om, oa)) => {
+                                self.macro_actuals(file, om, *oa, &q.to_string(), depth + 1, out)?;
+                                continue;
+                            }
+                            None => return Err(format!("macro_rules! {}: metavariable argument outside a macro", mac)),
+                        }
+                    }
+                }
+            }
+            let txt: String = a.iter().map(|t| t.to_string()).collect::<Vec<_>>().join("").chars().filter(|c| !c.is_whitespace()).collect();
+            out.insert(txt);
+        }
+        Ok(())
+    }
+
+    /// direct (top-level) invocations: the TUPLE of the arguments of the bound parameters must be that of one instance
+    fn check_macro_tuples(&mut self) {
+        let mut insts: BTreeMap<(String, String, usize), BTreeMap<String, (BTreeMap<String, String>, usize)>> = BTreeMap::new();
+        for b in self.macro_bindings.iter() {
+            let e = insts.entry((b.file.clone(), b.mac.clone(), b.arm)).or_default().entry(b.inst.clone()).or_insert((BTreeMap::new(), b.module));
+            e.0.insert(b.param.clone(), b.bound.clone());
+        }
+        let mut errs: Vec<(usize, String)> = vec![];
+        for ((file, mac, arm), by_inst) in insts {
+            let src = &self.sources[&file];
+            let def = all_items(&src.file.items).into_iter().find_map(|it| match it {
+                Item::Macro(m) if m.mac.path.is_ident("macro_rules") && m.ident.as_ref().map(|i| *i == mac).unwrap_or(false) => Some(m),
+                _ => None,
+            });
+            let def = match def {
+                Some(d) => d,
+                None => continue,
+            };
+            let arms = macro_arms(def);
+            let pat = match arms.get(arm) {
+                Some((p, _)) => p.clone(),
+                None => continue,
+            };
+            let arity = split_commas(pat.clone()).len();
+            let module = by_inst.values().next().map(|x| x.1).unwrap_or(0);
+            let params: BTreeSet<String> = by_inst.values().flat_map(|(m, _)| m.keys().cloned()).collect();
+            for it in all_items(&src.file.items) {
+                let m = match it {
+                    Item::Macro(m) if m.mac.path.is_ident(&mac) => m,
+                    _ => continue,
+                };
+                if split_commas(m.mac.tokens.clone()).len() != arity {
+                    continue;
+                }
+                let mut actual: BTreeMap<String, String> = BTreeMap::new();
+                for p in params.iter() {
+                    if let Some(path) = locate_param(pat.clone(), p) {
+                        if let Some(a) = extract_arg(m.mac.tokens.clone(), &path) {
+                            let txt: String = a.iter().map(|t| t.to_string()).collect::<Vec<_>>().join("").chars().filter(|c| !c.is_whitespace()).collect();
+                            actual.insert(p.clone(), txt);
+                        }
+                    }
+                }
+                let covered = by_inst.values().any(|(b, _)| b.iter().all(|(k, v)| actual.get(k) == Some(v)));
+                if !covered {
+                    let shown: Vec<String> = actual.iter().map(|(k, v)| format!("${}={}", k, v)).collect();
+                    errs.push((module, format!("{}: macro_rules! {} arm {}: the invocation with {} is not the instance of any configured `macro` line (add an instance with exactly these bindings)", file, mac, arm, shown.join(" "))));
+                }
+            }
+        }
+        for (m, e) in errs {
+            self.modules[m].errors.push(e);
+        }
+    }
+
+    /// every actual argument of a bound macro parameter must be covered by the binding of some configured instance
+    fn check_macro_bindings(&mut self) {
+        self.check_macro_tuples();
+        let mut groups: BTreeMap<(String, String, usize, String), (BTreeSet<String>, usize)> = BTreeMap::new();
+        for b in self.macro_bindings.iter() {
+            let e = groups.entry((b.file.clone(), b.mac.clone(), b.arm, b.param.clone())).or_insert((BTreeSet::new(), b.module));
+            e.0.insert(b.bound.clone());
+        }
+        for ((file, mac, arm, param), (bound, module)) in groups {
+            let mut actual = BTreeSet::new();
+            let r = self.macro_actuals(&file, &mac, arm, &param, 0, &mut actual);
+            let msg = match r {
+                Err(e) => Some(e),
+                Ok(()) => {
+                    let missing: Vec<String> = actual.iter().filter(|a| !bound.contains(*a)).cloned().collect();
+                    if missing.is_empty() {
+                        None
+                    } else {
+                        Some(format!("macro_rules! {} arm {}: parameter ${} is bound to {{{}}} but the source invokes it with {{{}}}: the template is not the translation of those instances (add an instance per value)", mac, arm, param, bound.iter().cloned().collect::<Vec<_>>().join(", "), missing.join(", ")))
+                    }
+                }
+            };
+            if let Some(m) = msg {
+                self.modules[module].errors.push(format!("{}: {}", file, m));
+            }
+        }
     }
 
     /// the macro parameters a definition depends on: those it mentions, and those of the template definitions it mentions
@@ -461,9 +840,14 @@ impl Driver {
         let mut fields = vec![];
         for (i, f) in st.fields.iter().enumerate() {
             let fname = f.ident.as_ref().map(|x| x.to_string()).unwrap_or_else(|| i.to_string());
-            let ty = match self.conv(&f.ty, &gens, Some(name), Some(name)) {
-                Ok(t) => subst_ty(&t, &subst),
-                Err(e) => Ty::Opaque(e),
+            let ty = if type_last_ident(&f.ty).as_deref() == Some("PhantomData") {
+                // zero-sized: no data, left out of constructor, literals and updates
+                Ty::Opaque("PhantomData".into())
+            } else {
+                match self.conv(&f.ty, &gens, Some(name), Some(name)) {
+                    Ok(t) => subst_ty(&t, &subst),
+                    Err(e) => Ty::Opaque(e),
+                }
             };
             fields.push((fname, ty));
         }
@@ -481,8 +865,20 @@ impl Driver {
             (map[0].to_string(), map[1].to_string(), map[2..].iter().map(|s| s.to_string()).collect())
         };
         let line = st.span().start().line;
+        let derives = derive_list(&st.attrs);
+        if eqb.is_some() && !derives.contains("PartialEq") {
+            return Err(format!("struct `{}`: `eqb=` given but the struct does not derive PartialEq (a hand-written `eq` is not translated)", name));
+        }
+        let clone_ok = derives.contains("Clone") || derives.contains("Copy");
         // a generated record leaves out the fields whose type is outside the subset (then it cannot be constructed)
-        let has_opaque = generated && fields.iter().any(|(_, t)| matches!(t, Ty::Opaque(_)));
+        let has_opaque = generated && fields.iter().any(|(_, t)| matches!(t, Ty::Opaque(_)) && !is_phantom(t));
+        if !generated {
+            for ((f, t), p) in fields.iter().zip(projs.iter()) {
+                if is_phantom(t) && p != "-" {
+                    return Err(format!("struct `{}`: field `{}` is PhantomData, its projection must be `-`", name, f));
+                }
+            }
+        }
         let ctor = if has_opaque { "-".to_string() } else { ctor };
         let projs: Vec<String> = fields.iter().zip(projs).map(|((_, t), p)| if generated && matches!(t, Ty::Opaque(_)) { "-".to_string() } else { p }).collect();
         let info = StructInfo {
@@ -492,9 +888,12 @@ impl Driver {
             fields: fields.into_iter().zip(projs).map(|((n, t), p)| FieldInfo { name: n, ty: t, proj: p }).collect(),
             eqb,
             generated,
-            module: module.to_string(),
+            module: if clone_ok { format!("clone:{}", module) } else { module.to_string() },
             origin: format!("{}:{}", file, line),
         };
+        if self.tables.adts.contains_key(name) || self.tables.externs.contains_key(name) {
+            return Err(format!("type key `{}` is configured twice (use a module-qualified key such as `module.{}` for a second type of that name)", name, name));
+        }
         self.tables.adts.insert(name.to_string(), Adt::Struct(info));
         Ok(())
     }
@@ -536,8 +935,13 @@ impl Driver {
             };
             variants.push(VariantInfo { name: vn, ctor, fields });
         }
-        let eqb = if eqb.is_none() && variants.iter().all(|v| v.fields.is_empty()) { Some(format!("{}_eqb", sanitize(name))) } else { eqb };
+        let derives = derive_list(&en.attrs);
+        if eqb.is_some() && !derives.contains("PartialEq") {
+            return Err(format!("enum `{}`: `eqb=` given but the enum does not derive PartialEq (a hand-written `eq` is not translated)", name));
+        }
+        let eqb = if eqb.is_none() && variants.iter().all(|v| v.fields.is_empty()) && derives.contains("PartialEq") { Some(format!("{}_eqb", sanitize(name))) } else { eqb };
         let auto_eqb = eqb.as_deref() == Some(format!("{}_eqb", sanitize(name)).as_str());
+        let clone_ok = derives.contains("Clone") || derives.contains("Copy");
         let line = en.span().start().line;
         let info = EnumInfo {
             name: name.to_string(),
@@ -545,14 +949,17 @@ impl Driver {
             variants,
             eqb,
             generated,
-            module: if auto_eqb { format!("auto-eqb:{}", module) } else { module.to_string() },
+            module: format!("{}{}", if auto_eqb { "auto-eqb:" } else { "" }, if clone_ok { format!("clone:{}", module) } else { module.to_string() }),
             origin: format!("{}:{}", file, line),
         };
+        if self.tables.adts.contains_key(name) || self.tables.externs.contains_key(name) {
+            return Err(format!("type key `{}` is configured twice (use a module-qualified key such as `module.{}` for a second type of that name)", name, name));
+        }
         self.tables.adts.insert(name.to_string(), Adt::Enum(info));
         Ok(())
     }
 
-    fn add_fn(&mut self, file: &str, spec: &str, coq_as: Option<String>, module: usize) -> R<()> {
+    fn add_fn(&mut self, file: &str, spec: &str, coq_as: Option<String>, inst: Option<String>, module: usize) -> R<()> {
         self.load(file)?;
         let parts = split_spec(spec);
         let (self_ty, trait_spec, name) = match parts.len() {
@@ -568,13 +975,46 @@ impl Driver {
             gens.extend(Self::generics_of(g));
         }
         let st = self_ty.as_deref();
-        let isub = self.instance_subst(st, ff.impl_self)?;
+        let mut isub = self.instance_subst(st, ff.impl_self)?;
+        let mut inst_map: BTreeMap<String, Ty> = BTreeMap::new();
+        if let Some(inst) = &inst {
+            let fn_gens = Self::generics_of(&ff.sig.generics);
+            for part in inst.split(',') {
+                let (g, t) = part.split_once(':').ok_or_else(|| format!("{} `{}`: `inst={}` is not Param:Type[,..]", file, spec, inst))?;
+                if !fn_gens.contains(g) {
+                    return Err(format!("{} `{}`: `{}` is not a type parameter of the function", file, spec, g));
+                }
+                let ty: Type = syn::parse_str(t).map_err(|e| format!("inst type `{}`: {}", t, e))?;
+                let ty = self.conv(&ty, &BTreeSet::new(), None, None)?;
+                inst_map.insert(g.to_string(), ty.clone());
+                isub.insert(g.to_string(), ty);
+            }
+        }
         let mut const_generics = vec![];
         for p in ff.sig.generics.params.iter() {
             if let GenericParam::Const(c) = p {
                 const_generics.push((c.ident.to_string(), self.conv(&c.ty, &gens, st, None)?));
             }
         }
+        if let Some(g) = ff.impl_generics {
+            // const generics of the impl that the body mentions
+            let mut ids = BTreeSet::new();
+            idents_of(quote::ToTokens::to_token_stream(ff.block), &mut ids);
+            for p in g.params.iter() {
+                if let GenericParam::Const(c) = p {
+                    if ids.contains(&c.ident.to_string()) {
+                        const_generics.push((c.ident.to_string(), self.conv(&c.ty, &gens, st, None)?));
+                    }
+                }
+            }
+        }
+        let impl_args: Vec<String> = match ff.impl_self.map(strip_group) {
+            Some(Type::Path(tp)) => match &tp.path.segments.last().unwrap().arguments {
+                PathArguments::AngleBracketed(a) => a.args.iter().map(|g| tokens_nospace(g)).collect(),
+                _ => vec![],
+            },
+            _ => vec![],
+        };
         // associated constants of generic type parameters (`R::BITS_PER_PIXEL`, `C::Raw::BITS_PER_PIXEL`)
         let mut assoc_params: Vec<(String, Ty)> = vec![];
         {
@@ -585,7 +1025,7 @@ impl Driver {
             impl<'ast, 'g> syn::visit::Visit<'ast> for V<'g> {
                 fn visit_expr_path(&mut self, p: &'ast ExprPath) {
                     if p.qself.is_none() && p.path.segments.len() >= 2 && self.gens.contains(&p.path.segments[0].ident.to_string()) {
-                        let k = p.path.segments.iter().map(|s| s.ident.to_string()).collect::<Vec<_>>().join("::");
+                        let k = generic_item_key(&p.path);
                         if !self.found.contains(&k) {
                             self.found.push(k);
                         }
@@ -594,6 +1034,51 @@ impl Driver {
             }
             let mut v = V { gens: &gens, found: vec![] };
             syn::visit::Visit::visit_block(&mut v, ff.block);
+            // `param.method(..)` where the parameter's type is a generic type parameter (or a reference to one)
+            {
+                let mut ptys: BTreeMap<String, String> = BTreeMap::new();
+                for a in ff.sig.inputs.iter() {
+                    if let FnArg::Typed(pt) = a {
+                        let mut t: &Type = &pt.ty;
+                        while let Type::Reference(r) = t {
+                            t = &r.elem;
+                        }
+                        if let (Pat::Ident(pi), Type::Path(tp)) = (&*pt.pat, t) {
+                            if let Some(id) = tp.path.get_ident() {
+                                if gens.contains(&id.to_string()) && !inst_map.contains_key(&id.to_string()) {
+                                    ptys.insert(pi.ident.to_string(), id.to_string());
+                                }
+                            }
+                        }
+                    }
+                }
+                struct M<'g> {
+                    ptys: &'g BTreeMap<String, String>,
+                    found: Vec<String>,
+                }
+                impl<'ast, 'g> syn::visit::Visit<'ast> for M<'g> {
+                    fn visit_expr_method_call(&mut self, m: &'ast ExprMethodCall) {
+                        if let Expr::Path(p) = &*m.receiver {
+                            if let Some(id) = p.path.get_ident() {
+                                if let Some(g) = self.ptys.get(&id.to_string()) {
+                                    let k = format!("{}::{}", g, m.method);
+                                    if !self.found.contains(&k) {
+                                        self.found.push(k);
+                                    }
+                                }
+                            }
+                        }
+                        syn::visit::visit_expr_method_call(self, m);
+                    }
+                }
+                let mut mv = M { ptys: &ptys, found: vec![] };
+                syn::visit::Visit::visit_block(&mut mv, ff.block);
+                for k in mv.found {
+                    if !v.found.contains(&k) {
+                        v.found.push(k);
+                    }
+                }
+            }
             // `callee::<A, B>(..)` where the callee abstracts `R::CONST`: the caller needs `A::CONST` when A is generic here
             {
                 struct C<'g> {
@@ -626,6 +1111,49 @@ impl Driver {
                         syn::visit::visit_expr_call(self, c);
                     }
                 }
+                // `self.m(..)` / `Self::m(..)` of the same impl header: the callee's abstracted items are the caller's
+                {
+                    struct S<'g> {
+                        fns: &'g Vec<FnInfo>,
+                        st: Option<&'g str>,
+                        impl_args: &'g Vec<String>,
+                        found: Vec<String>,
+                    }
+                    impl<'g> S<'g> {
+                        fn add(&mut self, name: &str) {
+                            for f in self.fns.iter().filter(|f| f.name == name && f.self_ty.as_deref() == self.st && self.st.is_some() && f.impl_args == *self.impl_args && f.generic_names.is_empty()) {
+                                for (k, _) in f.assoc_params.iter() {
+                                    if !self.found.contains(k) {
+                                        self.found.push(k.clone());
+                                    }
+                                }
+                            }
+                        }
+                    }
+                    impl<'ast, 'g> syn::visit::Visit<'ast> for S<'g> {
+                        fn visit_expr_method_call(&mut self, m: &'ast ExprMethodCall) {
+                            if matches!(&*m.receiver, Expr::Path(p) if p.path.is_ident("self")) {
+                                self.add(&m.method.to_string());
+                            }
+                            syn::visit::visit_expr_method_call(self, m);
+                        }
+                        fn visit_expr_call(&mut self, c: &'ast ExprCall) {
+                            if let Expr::Path(p) = &*c.func {
+                                if p.path.segments.len() == 2 && p.path.segments[0].ident == "Self" {
+                                    self.add(&p.path.segments[1].ident.to_string());
+                                }
+                            }
+                            syn::visit::visit_expr_call(self, c);
+                        }
+                    }
+                    let mut sv = S { fns: &self.tables.fns, st, impl_args: &impl_args, found: vec![] };
+                    syn::visit::Visit::visit_block(&mut sv, ff.block);
+                    for k in sv.found {
+                        if !v.found.contains(&k) {
+                            v.found.push(k);
+                        }
+                    }
+                }
                 let mut c = C { gens: &gens, fns: &self.tables.fns, found: vec![] };
                 syn::visit::Visit::visit_block(&mut c, ff.block);
                 for k in c.found {
@@ -635,7 +1163,7 @@ impl Driver {
                 }
             }
             for k in v.found {
-                let last = k.rsplit("::").next().unwrap().to_string();
+                let last = k.split("::<").next().unwrap().rsplit("::").next().unwrap().to_string();
                 match self.tables.assoc_tys.get(&last) {
                     Some(t) => assoc_params.push((k, t.clone())),
                     None => return Err(format!("{} `{}`: `{}` is an associated item of a generic parameter; give its type with an `assoc {} <type>` line", file, spec, k, last)),
@@ -684,6 +1212,9 @@ impl Driver {
         }
         let ret = match &ff.sig.output {
             ReturnType::Default => Ty::Unit,
+            // `fn f(&mut self, ..) -> &mut Self { ..; self }`: the returned reference is `self` itself (checked at translation):
+            // the result is the new self alone, the call has type ()
+            ReturnType::Type(_, t) if self_kind == SelfKind::Mut && tokens_nospace(&**t) == "&mutSelf" => Ty::Unit,
             ReturnType::Type(_, t) => {
                 // `Self::Output` of operator impls
                 let so = tokens_nospace(&**t);
@@ -731,10 +1262,10 @@ impl Driver {
         if self.tables.fns.iter().any(|f| f.coq == coq) {
             return Err(format!("{} `{}`: Coq name `{}` is already used (give `as=`)", file, spec, coq));
         }
-        let info = FnInfo { key: spec.to_string(), name: name.clone(), coq, self_ty: self_ty.clone(), trait_name: trait_spec.clone(), self_kind, const_generics, assoc_params, params, mut_params, mvars, generic_names: ff.sig.generics.params.iter().filter_map(|p| if let GenericParam::Type(t) = p { Some(t.ident.to_string()) } else { None }).collect(), file: file.to_string(), ret, fuel: false };
+        let info = FnInfo { key: spec.to_string(), name: name.clone(), coq, self_ty: self_ty.clone(), trait_name: trait_spec.clone(), self_kind, const_generics, assoc_params, params, mut_params, mvars, generic_names: ff.sig.generics.params.iter().filter_map(|p| if let GenericParam::Type(t) = p { Some(t.ident.to_string()) } else { None }).collect(), impl_args: impl_args.clone(), file: file.to_string(), ret, fuel: false };
         self.tables.fns.push(info);
         let idx = self.tables.fns.len() - 1;
-        self.jobs.push(FnJob { file: file.to_string(), self_ty, trait_spec, name, info_idx: idx, module });
+        self.jobs.push(FnJob { file: file.to_string(), self_ty, trait_spec, name, info_idx: idx, module, inst: inst_map });
         self.modules[module].decls.push(Decl::Fn(self.jobs.len() - 1));
         Ok(())
     }
@@ -770,7 +1301,7 @@ impl Driver {
         let (ty, ex, l1, l2) = found[0];
         let mvars = self.mvars_of(quote::ToTokens::to_token_stream(ex), None, file);
         let ty = self.conv(ty, &BTreeSet::new(), st.as_deref(), None)?;
-        let mut tr = Tr { t: &self.tables, self_ty: st.clone(), ret_ty: ty.clone(), mut_self: false, counter: BTreeMap::new(), mut_methods: BTreeSet::new(), generic_tys: BTreeSet::new(), subst: BTreeMap::new(), fuel: false, needs_fuel: false, fuel_var: String::new(), fuel_names: BTreeSet::new(), mutarg_names: BTreeSet::new(), mut_params: vec![], ret_coq: String::new(), loops: vec![], fn_assigned: BTreeSet::new(), cur_file: file.to_string(), fn_coq: String::new(), loop_counter: 0, aux_defs: vec![], turbofish_types: None };
+        let mut tr = Tr { t: &self.tables, self_ty: st.clone(), ret_ty: ty.clone(), mut_self: false, counter: BTreeMap::new(), mut_methods: BTreeSet::new(), generic_tys: BTreeSet::new(), subst: BTreeMap::new(), fuel: false, needs_fuel: false, fuel_var: String::new(), fuel_names: BTreeSet::new(), mutarg_names: BTreeSet::new(), mut_params: vec![], ret_coq: String::new(), loops: vec![], fn_assigned: BTreeSet::new(), cur_file: file.to_string(), fn_coq: String::new(), loop_counter: 0, aux_defs: vec![], turbofish_types: None, inst_traits: BTreeMap::new(), self_coq: String::new(), mut_param_coq: vec![] };
         let mut cenv = Env::default();
         let cbinders = self.mvar_binders(&mvars, &mut tr, &mut cenv)?;
         let v = tr.pure(ex, &cenv, Some(&ty)).map_err(|e| format!("{} const `{}`: {}", file, spec, e))?;
@@ -780,6 +1311,9 @@ impl Driver {
         let head = format!("(* {}:{}-{}  const {}  hash:{:016x} *)", file, l1, l2, spec, fnv1a(&text));
         let cty = self.tables.coq_ty(&ty)?;
         let body = format!("{}\nDefinition {}{} : {} := {}.\n", head, coq, cbinders, cty, v.s);
+        if self.tables.consts.iter().any(|c| c.key == spec || c.coq == coq) {
+            return Err(format!("{} const `{}`: key or Coq name `{}` already used", file, spec, coq));
+        }
         self.tables.consts.push(ConstInfo { key: spec.to_string(), coq, ty, mvars, file: file.to_string() });
         let idx = self.tables.consts.len() - 1;
         self.modules[module].decls.push(Decl::Const(idx, file.to_string(), body));
@@ -835,7 +1369,11 @@ impl Driver {
             counter: BTreeMap::new(),
             mut_methods,
             generic_tys: gens,
-            subst: self.instance_subst(job.self_ty.as_deref(), ff.impl_self).map_err(nf)?,
+            subst: {
+                let mut m = self.instance_subst(job.self_ty.as_deref(), ff.impl_self).map_err(nf)?;
+                m.extend(job.inst.iter().map(|(k, v)| (k.clone(), v.clone())));
+                m
+            },
             fuel,
             needs_fuel: false,
             fuel_var: "fuel'".into(),
@@ -850,6 +1388,44 @@ impl Driver {
             loop_counter: 0,
             aux_defs: vec![],
             turbofish_types: None,
+            inst_traits: {
+                let mut m: BTreeMap<String, BTreeSet<String>> = BTreeMap::new();
+                for (g, t) in job.inst.iter() {
+                    let key = match t {
+                        Ty::Adt(k) => k.clone(),
+                        _ => continue,
+                    };
+                    let e = m.entry(key).or_default();
+                    let mut add = |bounds: &syn::punctuated::Punctuated<TypeParamBound, Token![+]>| {
+                        for b in bounds.iter() {
+                            if let TypeParamBound::Trait(tb) = b {
+                                if let Some(s) = tb.path.segments.last() {
+                                    e.insert(s.ident.to_string());
+                                }
+                            }
+                        }
+                    };
+                    for p in ff.sig.generics.params.iter() {
+                        if let GenericParam::Type(tp) = p {
+                            if tp.ident == g {
+                                add(&tp.bounds);
+                            }
+                        }
+                    }
+                    if let Some(w) = &ff.sig.generics.where_clause {
+                        for pr in w.predicates.iter() {
+                            if let WherePredicate::Type(pt) = pr {
+                                if matches!(&pt.bounded_ty, Type::Path(tp) if tp.path.is_ident(g)) {
+                                    add(&pt.bounds);
+                                }
+                            }
+                        }
+                    }
+                }
+                m
+            },
+            self_coq: String::new(),
+            mut_param_coq: vec![],
         };
         tr.fn_assigned = tr.effects_stmts(&ff.block.stmts).assigned;
         let mut env = Env::default();
@@ -865,7 +1441,7 @@ impl Driver {
             env.push(n, var(c, t.clone()));
         }
         for (n, t) in info.assoc_params.iter() {
-            let c = tr.fresh(&n.replace("::", "_"));
+            let c = tr.fresh(&sanitize(&n.replace("::", "_")));
             write!(binders, " ({} : {})", c, self.tables.coq_ty(t).map_err(nf)?).unwrap();
             env.push(n, var(c, t.clone()));
         }
@@ -874,8 +1450,20 @@ impl Driver {
             let t = self.tables.resolve_name(&stn, &job.file, Some(&stn)).unwrap_or(Ty::Adt(stn));
             let c = tr.fresh("self");
             write!(binders, " ({} : {})", c, self.tables.coq_ty(&t).map_err(nf)?).unwrap();
-            env.push("self", var(c, t));
+            // `&mut self` and `mut self` may be written; `&self` / `self` may not
+            let self_mut = ff.sig.inputs.iter().any(|a| matches!(a, FnArg::Receiver(r) if r.mutability.is_some()));
+            tr.self_coq = c.clone();
+            env.push("self", var_mut(c, t, self_mut));
         }
+        let param_mut: Vec<bool> = ff
+            .sig
+            .inputs
+            .iter()
+            .filter_map(|a| match a {
+                FnArg::Typed(pt) => Some(matches!(&*pt.pat, Pat::Ident(i) if i.mutability.is_some())),
+                _ => None,
+            })
+            .collect();
         for (n, t) in info.params.iter() {
             if n == "_" {
                 let c = tr.fresh("unused");
@@ -884,11 +1472,30 @@ impl Driver {
             }
             let c = tr.fresh(n);
             write!(binders, " ({} : {})", c, self.tables.coq_ty(t).map_err(nf)?).unwrap();
-            env.push(n, var(c, t.clone()));
+            let pi = info.params.iter().position(|(m, _)| m == n).unwrap();
+            let is_ref_mut = info.mut_params[pi];
+            if is_ref_mut {
+                tr.mut_param_coq.push(c.clone());
+            }
+            env.push(n, var_mut(c, t.clone(), is_ref_mut || param_mut.get(pi).copied().unwrap_or(false)));
         }
         let ret = info.ret.clone();
         let env_top = env.clone();
-        let body = match tr.stmts_k(&ff.block.stmts, &env, Some(&ret), &|tr, v| tr.finish(v, &env_top)) {
+        let returns_self_ref = matches!(&ff.sig.output, ReturnType::Type(_, t) if info.self_kind == SelfKind::Mut && tokens_nospace(&**t) == "&mutSelf");
+        let stmts: &[Stmt] = if returns_self_ref {
+            // the body must end in the expression `self` (and must not `return` anything else)
+            match ff.block.stmts.last() {
+                Some(Stmt::Expr(Expr::Path(p), None)) if p.path.is_ident("self") => {}
+                _ => return Err((format!("{} `{}`: a `-> &mut Self` method whose body does not end in `self`", job.file, info.key), false)),
+            }
+            if tr.effects_stmts(&ff.block.stmts).ret {
+                return Err((format!("{} `{}`: a `-> &mut Self` method with early returns / loops", job.file, info.key), false));
+            }
+            &ff.block.stmts[..ff.block.stmts.len() - 1]
+        } else {
+            &ff.block.stmts
+        };
+        let body = match tr.stmts_k(stmts, &env, Some(&ret), &|tr, v| tr.finish(v, &env_top)) {
             Ok(b) => b,
             Err(e) => return Err((e, tr.needs_fuel)),
         };
@@ -943,7 +1550,7 @@ impl Driver {
                     }
                     out.push_str(".\n");
                 }
-                if e.module.starts_with("auto-eqb:") {
+                if e.module.contains("auto-eqb:") {
                     // structural equality of a field-less enum (derive(PartialEq))
                     let n = e.eqb.clone().unwrap();
                     writeln!(out, "Definition {} (a b : {}) : bool :=\n  match a, b with", n, e.coq_ty).unwrap();
@@ -1019,7 +1626,7 @@ fn main() {
     }
     let cfg = std::fs::read_to_string(&args[2]).expect("cannot read configuration");
     let outdir = Path::new(&args[3]);
-    let mut d = Driver { cur_file: String::new(), repo: args[1].clone(), sources: BTreeMap::new(), tables: Tables::default(), modules: vec![], jobs: vec![] };
+    let mut d = Driver { macro_bindings: vec![], cur_file: String::new(), repo: args[1].clone(), sources: BTreeMap::new(), tables: Tables::default(), modules: vec![], jobs: vec![] };
     // core::cmp::Ordering = Coq's comparison
     d.tables.adts.insert(
         "Ordering".into(),
@@ -1044,8 +1651,8 @@ fn main() {
             continue;
         }
         let w: Vec<&str> = line.split_whitespace().collect();
-        let opts: BTreeMap<String, String> = w.iter().filter_map(|x| x.split_once('=').filter(|(a, _)| !a.is_empty() && *a != "").map(|(a, b)| (a.to_string(), b.to_string()))).filter(|(a, _)| a == "as" || a == "eqb").collect();
-        let w: Vec<&str> = w.into_iter().filter(|x| !(x.starts_with("as=") || x.starts_with("eqb="))).collect();
+        let opts: BTreeMap<String, String> = w.iter().filter_map(|x| x.split_once('=').filter(|(a, _)| !a.is_empty() && *a != "").map(|(a, b)| (a.to_string(), b.to_string()))).filter(|(a, _)| a == "as" || a == "eqb" || a == "inst").collect();
+        let w: Vec<&str> = w.into_iter().filter(|x| !(x.starts_with("as=") || x.starts_with("eqb=") || x.starts_with("inst="))).collect();
         let cur = d.modules.len().wrapping_sub(1);
         let res: R<()> = match w[0] {
             "module" if w.len() == 2 => {
@@ -1079,25 +1686,51 @@ fn main() {
                 r
             }
             "const" if w.len() == 3 => d.add_const(w[1], w[2], opts.get("as").cloned(), cur),
+            // fuel <fn key> <coq nat term>
+            "fuel" if w.len() == 3 => {
+                d.tables.fuel_consts.insert(w[1].to_string(), w[2].to_string());
+                Ok(())
+            }
             "assoc" if w.len() == 3 => {
                 let t: R<Type> = syn::parse_str(w[2]).map_err(|e| e.to_string());
-                t.and_then(|t| d.conv(&t, &BTreeSet::new(), None, None)).map(|t| {
+                let gens: BTreeSet<String> = d.tables.tyvars.keys().cloned().collect();
+                t.and_then(|t| d.conv(&t, &gens, None, None)).map(|t| {
                     d.tables.assoc_tys.insert(w[1].to_string(), t);
                 })
             }
             // extern <RustType> = <coq type> <method>:<rust return type>:<coq function, `~` for blanks> ...
             "extern" if w.len() >= 4 && w[2] == "=" => {
                 let mut methods = vec![];
+                let mut margs: BTreeMap<String, Vec<Ty>> = BTreeMap::new();
                 let mut err = None;
                 for m in &w[4..] {
                     let ps: Vec<&str> = m.splitn(3, ':').collect();
                     if ps.len() != 3 {
-                        err = Some(format!("extern method `{}` is not name:type:coqfn", m));
+                        err = Some(format!("extern method `{}` is not name[(argtypes)]:type:coqfn", m));
+                        break;
+                    }
+                    // `name(t1,t2)`: a method with arguments
+                    let mname = match ps[0].split_once('(') {
+                        Some((n, rest)) => {
+                            let mut ats = vec![];
+                            for a in rest.trim_end_matches(')').split(',').filter(|a| !a.is_empty()) {
+                                let t: R<Type> = syn::parse_str(a).map_err(|e| e.to_string());
+                                match t.and_then(|t| d.conv(&t, &BTreeSet::new(), None, None)) {
+                                    Ok(t) => ats.push(t),
+                                    Err(e) => err = Some(e),
+                                }
+                            }
+                            margs.insert(n.to_string(), ats);
+                            n
+                        }
+                        None => ps[0],
+                    };
+                    if err.is_some() {
                         break;
                     }
                     let t: R<Type> = syn::parse_str(ps[1]).map_err(|e| e.to_string());
                     match t.and_then(|t| d.conv(&t, &BTreeSet::new(), None, None)) {
-                        Ok(t) => methods.push((ps[0].to_string(), t, ps[2].replace('~', " "))),
+                        Ok(t) => methods.push((mname.to_string(), t, ps[2].replace('~', " "))),
                         Err(e) => {
                             err = Some(e);
                             break;
@@ -1107,12 +1740,12 @@ fn main() {
                 match err {
                     Some(e) => Err(e),
                     None => {
-                        d.tables.externs.insert(w[1].to_string(), ExternInfo { name: w[1].to_string(), coq_ty: w[3].replace('~', " "), methods, row: None, consts: vec![], statics: vec![] });
+                        d.tables.externs.insert(w[1].to_string(), ExternInfo { name: w[1].to_string(), coq_ty: w[3].replace('~', " "), methods, margs, row: None, consts: vec![], statics: vec![] });
                         Ok(())
                     }
                 }
             }
-            "fn" if w.len() == 3 => d.add_fn(w[1], w[2], opts.get("as").cloned(), cur),
+            "fn" if w.len() == 3 => d.add_fn(w[1], w[2], opts.get("as").cloned(), opts.get("inst").cloned(), cur),
             // macro <file> <macro name> <arm> as <virtual file> [$name=tokens ...]
             "macro" if w.len() >= 6 && w[4] == "as" => match w[3].parse::<usize>() {
                 Ok(arm) => d.add_macro(w[1], w[2], arm, w[5], &w[6..]),
@@ -1127,7 +1760,7 @@ fn main() {
             }
             // mtype <M_name> = <coq type of values> <coq type of the row> [const:NAME:type:coqfn | method:name:type:coqfn | fn:name:argtypes:rettype:coqfn]...
             "mtype" if w.len() >= 5 && w[2] == "=" => {
-                let mut x = ExternInfo { name: w[1].to_string(), coq_ty: w[3].replace('~', " "), methods: vec![], row: Some(w[1].to_string()), consts: vec![], statics: vec![] };
+                let mut x = ExternInfo { name: w[1].to_string(), coq_ty: w[3].replace('~', " "), methods: vec![], margs: BTreeMap::new(), row: Some(w[1].to_string()), consts: vec![], statics: vec![] };
                 let mut err = None;
                 let ty_of = |d: &Driver, s: &str| -> R<Ty> {
                     if s == "Self" {
@@ -1183,6 +1816,7 @@ fn main() {
             }
         }
     }
+    d.check_macro_bindings();
     // translate
     let mut failed = false;
     let mut outputs: Vec<(String, String)> = vec![];
